@@ -58,6 +58,8 @@ def run(tier, replay=None):
         mm["order"] = ck.coq_eval_cases(lines("cases_order.txt"), hdr, "int * list decl * skind", "order_mismatches", tag="order")
     if ck.coq_ok:
         mm["history"] = ck.coq_eval_cases(lines("cases_history.txt"), hdr, "int * mdata * list (str * list str) * mdata * list (str * list str) * mdata", "history_mismatches", tag="history")
+    if ck.coq_ok:
+        mm["streamhandler"] = ck.coq_eval_cases(lines("cases_streamhandler.txt"), hdr, "int * list (str * list str) * list (str * list str) * bool * bool * list stage", "streamhandler_mismatches", tag="streamhandler")
     if ck.coq_ok and tier == "thorough":
         hdrv = "From GRPC Require Import Model Values RunValues.\nOpen Scope Z_scope."
         vl = lines("cases_values.txt")
@@ -96,7 +98,7 @@ def run(tier, replay=None):
             ck.notes.append(k)
     cov = {"evaluations": res["evaluations"], "distinct_nontrivial": res["distinct_nontrivial"], "rule": res["rule"],
            "samples": res["samples"], "distribution": res["distribution"],
-           "model_cases": {s: len(lines("cases_%s.txt" % s)) for s in ("main", "names", "split", "reqmd", "order", "reject", "witness", "runtime", "history", "values")},
+           "model_cases": {s: len(lines("cases_%s.txt" % s)) for s in ("main", "names", "split", "reqmd", "order", "reject", "witness", "runtime", "history", "streamhandler", "values")},
            "model_mismatches": {s: (len(b) if b is not None else None) for s, b in mm.items()} if ck.coq_ok else None,
            "extra": res.get("extra", {}), "exhaustive": False,
            "partial": "protoc is absent: the protoc finaliser is dropped, the protobuf wire format is not exercised, tier B uses stand-in pb structs with protoc-gen-go's field naming"}
